@@ -387,4 +387,114 @@ theorem carry_append_markup (pr : Bool) (xs : List Item) (p : Item) (hp : p.isTe
   | nil => simp [carry, hp]
   | cons x xs ih => simp [carry, ih]
 
+/-! ## token start offsets -/
+
+theorem slice_mid (a v b : Str) (n : Nat) (hn : n = a.length) : ((a ++ v ++ b).drop n).take v.length = v := by
+  subst hn
+  simp [List.append_assoc]
+
+theorem stepContent_kinds {st st' : LexState} {m : Match} {ts : List Token}
+    (h : stepContent st m = .ok (st', ts)) : ∀ t ∈ ts, t.sliced = false := by
+  unfold stepContent at h
+  simp only at h
+  repeat' (split at h)
+  all_goals (cases h)
+  all_goals (simp [Token.sliced])
+
+theorem step_slice (d : Delims) (p : Piece) (la : Bool) (st st' : LexState) (ts : List Token) (pre post : Str)
+    (h : step st (pieceMatch d pre.length la p) = .ok (st', ts)) :
+    ∀ t ∈ ts, t.sliced = true → t.inSrc (pre ++ p.src d ++ post) := by
+  intro t ht hs
+  unfold step at h
+  split at h
+  · -- inside a comment
+    unfold stepComment at h
+    repeat' (split at h)
+    all_goals (cases h)
+    all_goals (first | (simp at ht; done) | skip)
+    -- the closing tag
+    rename_i hk hn _
+    cases p with
+    | tag l r ws0 name ws1 e ws2 =>
+      simp only [List.mem_cons, List.mem_nil_iff, or_false] at ht
+      rcases ht with rfl | rfl
+      · simp [Token.sliced] at hs
+      · simp only [pieceMatch, Token.inSrc, Piece.src]
+        have := slice_mid (pre ++ d.tagS ++ hy l ++ ws0) name (ws1 ++ e ++ ws2 ++ hy r ++ d.tagE ++ post)
+          (pre.length + d.tagS.length + (hy l).length + ws0.length) (by simp [List.length_append, Nat.add_assoc])
+        simpa [List.append_assoc] using this
+    | _ => simp [pieceMatch] at hk
+  · rename_i h0
+    have h0 : st.depth = 0 := by simpa using h0
+    have hts : p.isText = false → ts = pieceToks d pre.length p := by
+      intro hp
+      have hstep : step st (pieceMatch d pre.length la p) = .ok (st', ts) := by
+        simp only [step, h0, ne_eq, not_true_eq_false, if_false]; exact h
+      by_cases hc : isTagNamed kwComment p = true
+      · obtain ⟨l, r, ws0, ws1, e, ws2, rfl⟩ := isTagNamed_true hc
+        have := step_open_comment d pre.length la ⟨l, r, ws0, ws1, e, ws2⟩ st h0
+        simp only [TagF.piece] at this
+        rw [this] at hstep
+        cases hstep; rfl
+      · have := step_markup d pre.length la p st h0 hp (by simpa using hc)
+        rw [this] at hstep
+        cases hstep; rfl
+    cases p with
+    | text s =>
+      simp only [stepTop, pieceMatch] at h
+      have := stepContent_kinds h t ht
+      simp [this] at hs
+    | output l r ws1 e ws2 =>
+      have := hts rfl; subst this
+      simp only [pieceToks, pieceMatch, List.mem_cons, List.mem_nil_iff, or_false] at ht
+      rcases ht with rfl | rfl
+      · simp only [Token.inSrc, Piece.src]
+        have := slice_mid pre (d.stmtS ++ hy l ++ ws1 ++ e ++ ws2 ++ hy r ++ d.stmtE) post pre.length rfl
+        simpa [List.append_assoc] using this
+      · simp only [Token.inSrc, Piece.src]
+        have := slice_mid (pre ++ d.stmtS ++ hy l ++ ws1) e (ws2 ++ hy r ++ d.stmtE ++ post)
+          (pre.length + d.stmtS.length + (hy l).length + ws1.length) (by simp [List.length_append, Nat.add_assoc])
+        simpa [List.append_assoc] using this
+    | tag l r ws0 name ws1 e ws2 =>
+      have := hts rfl; subst this
+      have hmem : t = ⟨.tag, name, pre.length + d.tagS.length + (hy l).length + ws0.length⟩ ∨
+          t = ⟨.expression, e, pre.length + d.tagS.length + (hy l).length + ws0.length + name.length + ws1.length⟩ := by
+        by_cases he : e = [] <;> simp [pieceToks, pieceMatch, he] at ht <;> simp [ht]
+      rcases hmem with rfl | rfl
+      · simp only [Token.inSrc, Piece.src]
+        have := slice_mid (pre ++ d.tagS ++ hy l ++ ws0) name (ws1 ++ e ++ ws2 ++ hy r ++ d.tagE ++ post)
+          (pre.length + d.tagS.length + (hy l).length + ws0.length) (by simp [List.length_append, Nat.add_assoc])
+        simpa [List.append_assoc] using this
+      · simp only [Token.inSrc, Piece.src]
+        have := slice_mid (pre ++ d.tagS ++ hy l ++ ws0 ++ name ++ ws1) e (ws2 ++ hy r ++ d.tagE ++ post)
+          (pre.length + d.tagS.length + (hy l).length + ws0.length + name.length + ws1.length)
+          (by simp [List.length_append, Nat.add_assoc])
+        simpa [List.append_assoc] using this
+    | raw o b c => have := hts rfl; subst this; simp [pieceToks] at ht; subst ht; simp [Token.sliced] at hs
+    | doc o b c => have := hts rfl; subst this; simp [pieceToks] at ht; subst ht; simp [Token.sliced] at hs
+    | short l r b => have := hts rfl; subst this; simp [pieceToks] at ht; subst ht; simp [Token.sliced] at hs
+
+theorem tokenize_slice (d : Delims) : ∀ (ps : List Piece) (pre : Str) (st : LexState) (ts : List Token),
+    tokenize st (matchesOf d pre.length ps) = .ok ts →
+    ∀ t ∈ ts, t.sliced = true → t.inSrc (pre ++ assemble d ps)
+  | [], pre, st, ts, h => by simp [matchesOf, tokenize] at h; subst h; simp
+  | p :: rest, pre, st, ts, h => by
+    rw [matchesOf_cons] at h
+    simp only [tokenize] at h
+    split at h
+    · cases h
+    · rename_i st' ts1 hs
+      split at h
+      · cases h
+      · rename_i ts2 ht2
+        cases h
+        intro t ht hsl
+        rcases List.mem_append.mp ht with h1 | h2
+        · have := step_slice d p _ st st' ts1 pre (assemble d rest) hs t h1 hsl
+          simpa [assemble, List.append_assoc] using this
+        · have hlen : (pre ++ p.src d).length = pre.length + (p.src d).length := by simp
+          have := tokenize_slice d rest (pre ++ p.src d) st' ts2 (by rw [hlen]; exact ht2) t h2 hsl
+          simpa [assemble, List.append_assoc] using this
+
+
 end LiquidVerif.Lex
